@@ -183,6 +183,15 @@ def check_template(tpl, data=None, ctx=None):
         return fails, None
     if exp[0] == "unspecified":
         return fails, exp[1]
+    if got[0] == "value":
+        # the payload must not share structure with the template / input / context: scribbling over it leaves them intact
+        # (values selected by a path are references into the input/context by design; only the template - the
+        #  cached state machine definition, shared by every execution - must never be reachable from the payload)
+        _scribble(got[1])
+        if tpl != t0:
+            fails.append(("template-aliases-output", "modifying the payload produced from %s changed the template itself" % json.dumps(t0)))
+        tpl, data, ctx = copy.deepcopy(t0), copy.deepcopy(d0), copy.deepcopy(c0)
+        got = ("value", m.evaluate_payload_template(data, ctx, tpl))
     if exp[0] != got[0]:
         # several failing members: either failure kind is acceptable
         if not (exp[0] in ("intrinsic-failure", "path-failure") and got[0] in ("intrinsic-failure", "path-failure")):
@@ -190,6 +199,17 @@ def check_template(tpl, data=None, ctx=None):
     elif exp[0] == "value" and not rt.tree_matches(got[1], exp[1]):
         fails.append(("template-wrong-value", "%s -> %s expected %s" % (json.dumps(t0), _show(got[1]), _show(exp[1]))))
     return fails, None
+
+
+def _scribble(v):
+    if isinstance(v, dict):
+        for x in list(v.values()):
+            _scribble(x)
+        v["__scribble__"] = 1
+    elif isinstance(v, list):
+        for x in v:
+            _scribble(x)
+        v.append("__scribble__")
 
 
 CANARY_PROBES = [
